@@ -148,6 +148,7 @@ func main() {
 		r.Extra["normalized_calls_inlined"] = w.Inlined
 	}
 	fn(w, r)
+	round6(w, r)
 	r.evDir = *out
 	if *tier == "thorough" {
 		thoroughExtras(w, r, vdir, *repo)
